@@ -69,6 +69,34 @@ def reference_ah(irk_msb, prand_msb):
     return enc.update(bytes(13) + bytes.fromhex(prand_msb))[-3:].hex()
 
 
+def cmac_subkey_classes(rng, want):
+    """CMAC keys chosen by the case analysis of RFC 4493 sub-key generation: L = AES_k(0), K1 = L << 1 (xor Rb when the top
+    bit of L is set), K2 = K1 << 1 (xor Rb when the top bit of K1 is set).  Returns {(class name): key hex} for first octets
+    of L and K1 at and around the 0x80 boundary (input selection only; AES computed with `cryptography` directly)."""
+    from cryptography.hazmat.primitives.ciphers import Cipher, algorithms, modes
+
+    def sub(v):
+        x = int.from_bytes(v, "big")
+        r = (x << 1) & ((1 << 128) - 1)
+        if x >> 127:
+            r ^= 0x87
+        return r.to_bytes(16, "big")
+
+    found = {}
+    need = {f"{w}[0]={b:#04x}" for w in ("L", "K1") for b in want}
+    for _ in range(400000):
+        if not need:
+            break
+        k = bytes(rng.getrandbits(8) for _ in range(16))
+        L = Cipher(algorithms.AES(k), modes.ECB()).encryptor().update(bytes(16))
+        k1 = sub(L)
+        for name in (f"L[0]={L[0]:#04x}", f"K1[0]={k1[0]:#04x}"):
+            if name in need:
+                need.discard(name)
+                found[name] = k.hex()
+    return found
+
+
 # ----------------------------------------------------------------------------- jobs
 SHAPES = {  # byte widths of the arguments of the SMP toolbox functions
     "ah": (16, 3), "c1": (16, 16, 7, 7, 1, 1, 6, 6), "s1": (16, 16, 16), "f4": (32, 32, 16, 1), "f5": (32, 16, 16, 7, 7),
@@ -141,6 +169,18 @@ def make_jobs(ctx, vectors, scale=None):
     for ki, k in enumerate([rfck, rkeys[0]] + ([] if q else [zero, ones])):
         for ln in longs if s >= 1 else longs[:2]:
             J.add("cmac", f"long,len%16={ln % 16}", f="cmac", k=k, gen=[9000000 + ki * 1000000 + ln, ln])
+    # keys at the branch points of the sub-key derivation (top bit of L / of K1), complete and incomplete last blocks
+    import random as _random
+
+    sub_keys = cmac_subkey_classes(_random.Random(f"c14/subkeys/{ctx.seed}"), (0x00, 0x3F, 0x40, 0x7F, 0x80, 0x81, 0xBF, 0xC0, 0xFF))
+    for ki, (name, k) in enumerate(sorted(sub_keys.items())):
+        for ln in ((0, 1, 15, 16, 17, 32) if s >= 1 else (0, 16)):
+            J.add("cmac", f"subkey {name},len%16={ln % 16}", f="cmac", k=k, gen=[11000000 + ki * 1000 + ln, ln])
+        if s >= 1:
+            # the toolbox functions keyed by such a value (f4: X, h6: W, h7: SALT are CMAC keys)
+            J.add("smp", f"cmac-key {name}", f="f4", a=[J.rnd(32), J.rnd(32), k, J.rnd(1)])
+            J.add("smp", f"cmac-key {name}", f="h6", a=[k, "6c656272"])
+            J.add("smp", f"cmac-key {name}", f="h7", a=[k, J.rnd(16)])
     for ln in (0, 15, 16, 32, 40):
         J.add("cmac", "message=zero", f="cmac", k=zero, m="00" * ln)
         J.add("cmac", "message=ones", f="cmac", k=ones, m="ff" * ln)
@@ -193,6 +233,13 @@ def make_jobs(ctx, vectors, scale=None):
             continue  # a pair that reduces to a curve point is left free (the library accepts it)
         for sn, d in scalars[: 3 if q else 4] + [("random", J.scalar())]:
             J.add("dhbad", f"off-curve {name},scalar={sn}", f="dh", a=[h32(d), xy(x, y)])
+    # ---- one key object, several peer points in a row (what smp.Manager does with its long-lived key): a valid point,
+    #      then points with the same x that are not on the curve, then the valid one again
+    seq_pts = [("G", GX, GY), ("sample-A", pax, pay)] + [(f"x={x}", x, y) for x, y in small[:2]]
+    for name, x, y in seq_pts if s >= 1 else seq_pts[:1]:
+        for sn, d in scalars[:2] + [("random", J.scalar())]:
+            pts = [xy(x, y), xy(x, (y + 1) % P), xy(x, y ^ (1 << 100)), xy(x, P - y), xy((x + 1) % P, y), xy(x, y)]
+            J.add("dhseq", f"same key object: {name} then same x off the curve,scalar={sn}", f="dhseq", a=[h32(d), pts])
     # ---- resolvable private addresses
     irks = [("zero", zero), ("ones", ones)] + [("single-bit", bit(i)) for i in (0, 7, 64, 127)]
     for i in range(n(240, 10000)):
@@ -200,6 +247,11 @@ def make_jobs(ctx, vectors, scale=None):
         rand = J.rnd(6) if i % 9 else ("000000000000" if i % 2 else "ffffffffffff")
         flipped = f"{int(irk, 16) ^ (1 << J.rng.randrange(128)):032x}"
         J.add("rpa", f"irk={name}", f="rpa", irk=irk, rand=rand, idtype=i % 2, others=[J.rnd(16), flipped])
+    # ---- one AddressResolver, several addresses in a row: an address of the known peer, then addresses generated from
+    #      unrelated keys with the SAME prand (equal low halves, different hashes), then the first one again
+    for i in range(n(12, 400)):
+        irk = J.rnd(16) if i > 1 else (zero, ones)[i]
+        J.add("rpaseq", "same resolver, same prand, other keys", f="rpaseq", irk=irk, rand=J.rnd(6), others=[J.rnd(16), J.rnd(16)])
     # ---- diagnostic: the fallback's private point addition (not a verdict)
     for d1, d2 in ((1, 1), (2, 2), (5, N - 5), (3, 4), (N - 1, N - 1), (N - 1, 1)):
         J.add("diag", "padd", f="padd", a=[h32(d1), h32(d2), h32((d1 + d2) % N)])
@@ -245,7 +297,7 @@ def run_library(jobs):
 
 # ----------------------------------------------------------------------------- traces and verdicts
 KEEP = ("e", "b", "f", "args", "r", "valid")
-CHUNK = {"vectors": 1000, "e": 24, "cmac": 24, "smp": 24, "dh": 6, "dhpt": 24, "dhbad": 24, "rpa": 6}
+CHUNK = {"vectors": 1000, "e": 24, "cmac": 24, "smp": 24, "dh": 6, "dhpt": 24, "dhbad": 24, "rpa": 6, "dhseq": 6, "rpaseq": 6}
 PRIORITY = ["InvalidPoint", "Vectors", "Total", "RPA", "DHSymmetry", "Deterministic", "Agreement"]
 BLAMES_BACKEND = {"InvalidPoint", "Vectors", "Total", "RPA", "DHSymmetry", "Deterministic"}
 
@@ -278,7 +330,7 @@ def build_traces(jobs, ev_a, ev_b, stats):
             tr = []
             for j in js[i : i + size]:
                 evs = [classify(e, stats) for e in a.get(j["id"], []) + b.get(j["id"], [])]
-                if j["f"] == "rpa":
+                if j["f"] in ("rpa", "rpaseq"):
                     evs = drop_collisions(j, evs, stats)
                 tr += [(j, e) for e in evs]
             if fam == "vectors":
